@@ -85,6 +85,18 @@ def observe(ctx, label, fn, witness, reg_before=None):
                     if "not JSON compliant" in str(e2) or isinstance(e2, OverflowError):
                         ctx.violation("returned-object-not-serializable", "%s: returned an object whose serialize() raises %s (%s)" % (label, type(e2).__name__, str(e2)[:80]),
                                       dict(witness, exception=repr(e2)))
+            elif res is not None and hasattr(res, "serialize"):
+                # whatever customisation let in: writing the object out does not fail with an internal error either
+                try:
+                    res.serialize()
+                    ctx.count("returned_objects_serialized")
+                except family():
+                    pass
+                except CaseTimeout:
+                    raise
+                except Exception as e2:
+                    ctx.violation("returned-object-serialize-escape:%s@%s" % (type(e2).__name__, where_raised(e2)), "%s: returned an object whose serialize() lets %s escape (%s)" % (
+                        label, type(e2).__name__, str(e2)[:80]), dict(witness, exception=repr(e2)))
         ctx.count("returned")
         return "returned"
     except CaseTimeout:
@@ -346,6 +358,11 @@ def wl_deep(ctx, rng, i):
             for text in ("[" * depth + "]" * depth, '{"type":"identity","x":' + '{"a":' * depth + "1" + "}" * depth + "}"):
                 observe(ctx, "JSON text nested %d levels via parse-text" % depth, lambda: stix2.parse(text), {"depth": depth, "text_head": text[:40]})
                 observe(ctx, "JSON text nested %d levels via parse_observable" % depth, lambda: stix2.parse_observable(text, version="2.1"), {"depth": depth, "text_head": text[:40]})
+                # ... and the same content arriving as bytes or from a file-like object (text or binary)
+                import io
+                for form, mk in (("bytes", lambda: text.encode()), ("text stream", lambda: io.StringIO(text)), ("binary stream", lambda: io.BytesIO(text.encode()))):
+                    observe(ctx, "JSON nested %d levels given as %s via parse" % (depth, form), lambda: stix2.parse(mk()), {"depth": depth, "form": form, "text_head": text[:40]})
+                    observe(ctx, "JSON nested %d levels given as %s via parse_observable" % (depth, form), lambda: stix2.parse_observable(mk(), version="2.1"), {"depth": depth, "form": form})
                 ctx.count("undecodable_texts")
     check_state(ctx, reg0, {"version": ver, "type": t, "workload": "deep"})
 
@@ -475,7 +492,8 @@ def wl_stores(ctx, rng, i):
                               # ... and ids no file can be named after
                               dict(good, id="x-stixmon-kept--\x00" + u[:-2] + "a4"), dict(good, id="x-stixmon-kept--" + "a" * 300)])
         pos = rng.choice(["last", "middle"])
-        members = fresh + [fresh_obj]
+        # (among the members that would be fine: a new version of an id the store holds already)
+        members = [dict(good, modified="2021-01-01T00:00:00Z", name="a further version of a stored id")] + fresh + [fresh_obj]
         lot = members + [refused] if pos == "last" else members[:1] + [refused] + members[1:]
         lot_json = [json.loads(x.serialize()) if hasattr(x, "serialize") else x for x in lot]
         batches = [("list", lot), ("bundle dictionary", {"type": "bundle", "id": "bundle--" + u, "objects": lot_json})]
@@ -518,6 +536,30 @@ def wl_stores(ctx, rng, i):
             if after != before:
                 ctx.violation("store-changed-by-failed-add", "%s contents changed although add() raised" % label,
                               {"store": label, "item": repr(item)[:300], "before": before[:6], "after": after[:6]})
+        # a saved file is part of what the store keeps: a save which fails leaves the file that was there
+        saved = os.path.join(tmp, "saved-before.json")
+        try:
+            keep = stix2.MemoryStore([stix2.v21.Identity(id="identity--" + u[:-2] + "b0", name="saved")])
+            keep.save_to_file(saved)
+            before_bytes = open(saved, "rb").read()
+            keep.add(rng.choice([unserial, stix2.v21.Identity(id="identity--" + u[:-2] + "b1", name="unencodable \ud800 name"),
+                                 stix2.v21.Identity(id="identity--" + u[:-2] + "b2", name="caf\u00e9 needs more than ASCII")]))
+            try:
+                with warnings.catch_warnings():
+                    warnings.simplefilter("ignore")
+                    keep.save_to_file(saved, encoding="ascii")
+                failed = False
+            except Exception:
+                failed = True
+            if failed:
+                ctx.ev()
+                ctx.count("store_unchanged_checks")
+                ctx.count("failed_saves_judged")
+                if open(saved, "rb").read() != before_bytes:
+                    ctx.violation("saved-file-destroyed-by-failed-save", "save_to_file raised and left %d bytes of the %d that were in the file" % (os.path.getsize(saved), len(before_bytes)),
+                                  {"store": "MemoryStore.save_to_file", "bytes_before": len(before_bytes), "bytes_after": os.path.getsize(saved)})
+        except family():
+            pass
         ctx.nontrivial("stores", i % 50)
     finally:
         shutil.rmtree(tmp, ignore_errors=True)
@@ -606,6 +648,14 @@ def targeted_cases():
             o = dict(base)
             o["extensions"] = ext
             cases.append((base["type"], "extensions=%r" % (ext,), o))
+    # property names the library itself looks at (markings, extensions, versioning) on types which do not define them: there they are
+    # custom properties of any shape
+    er = {"source_name": "s", "url": "u"}
+    for k in ("granular_markings", "object_marking_refs", "extensions", "revoked", "modified", "created", "spec_version", "labels"):
+        for j in J + [[5], [{"selectors": 5}], [["a"]], [{"selectors": ["name"], "marking_ref": 5}]]:
+            cases.append(("bundle", "bundle.%s=%s" % (k, json.dumps(j)[:30]), dict(bun, **{k: j})))
+            cases.append(("identity", "external_references[0].%s=%s" % (k, json.dumps(j)[:30]), dict(idn, external_references=[dict(er, **{k: j})])))
+            cases.append(("observed-data", "2.0 objects.0.%s=%s" % (k, json.dumps(j)[:30]), dict(od20, objects={"0": dict({"type": "file", "name": "f"}, **{k: j})})))
     for objs in J + [[{}], [{"type": "identity"}], [{"id": "x"}], [[idn]], [idn, 5], {"0": idn}, [{"type": "bundle", "objects": []}], [{"type": ["x"]}],
                      [{"type": "identity", "spec_version": 5}], [{"type": "x-foo", "extensions": 5}], [{"type": "x-foo", "extensions": {"extension-definition--x": 5}}]]:
         o = dict(bun)
